@@ -276,29 +276,6 @@ Proof.
   unfold sort_setof. destruct l as [|a [|b l]]; try apply Permutation_refl. apply sort_by_perm.
 Qed.
 
-Lemma Forall2_len {A B} (P: A -> B -> Prop) l1 l2 : Forall2 P l1 l2 -> length l1 = length l2.
-Proof. induction 1; cbn [length]; congruence. Qed.
-
-(* a permutation acts by position: it carries any pointwise relation along *)
-Lemma perm_positional {A B} (l1 l1': list A) : Permutation l1 l1' -> forall ys: list B, length ys = length l1 ->
-  exists ys', Permutation ys ys' /\ forall P: A -> B -> Prop, Forall2 P l1 ys -> Forall2 P l1' ys'.
-Proof.
-  induction 1 as [|x l l' Hp IH|x y l|l l' l'' Hp1 IH1 Hp2 IH2]; intros ys Hlen.
-  - destruct ys; [|discriminate]. exists []. split; [constructor|]. auto.
-  - destruct ys as [|y0 ys]; [discriminate|]. destruct (IH ys ltac:(cbn in Hlen; lia)) as (ys' & Hpy & HP).
-    exists (y0 :: ys'). split; [apply perm_skip; exact Hpy|].
-    intros P HF. inversion HF; subst. constructor; [assumption|apply HP; assumption].
-  - destruct ys as [|y0 [|y1 ys]]; try discriminate. exists (y1 :: y0 :: ys). split; [apply perm_swap|].
-    intros P HF. inversion HF as [|? ? ? ? H1 HF']; subst. inversion HF' as [|? ? ? ? H2 HF'']; subst.
-    constructor; [assumption|constructor; assumption].
-  - destruct (IH1 ys Hlen) as (ys1 & Hpy1 & HP1).
-    assert (Hl1: length ys1 = length l').
-    { rewrite <- (Permutation_length Hpy1), Hlen. apply Permutation_length. exact Hp1. }
-    destruct (IH2 ys1 Hl1) as (ys2 & Hpy2 & HP2).
-    exists ys2. split; [eapply perm_trans; eassumption|].
-    intros P HF. apply HP2, HP1. exact HF.
-Qed.
-
 (* ---------- the induction, for any comparison of abstract values that is a congruence ---------- *)
 
 Section Induction.
@@ -443,8 +420,8 @@ Section Induction.
     { destruct Hord0 as [-> | (Hso1 & Hb1 & Hperm)].
       - exists xs'. split; [exact Helems|left; reflexivity].
       - assert (Hlen': length xs' = length parts).
-        { symmetry. eapply Forall2_len. apply (Helems (length (concat parts) + ty_depth t)%nat). lia. }
-        destruct (perm_positional parts parts' Hperm xs' Hlen') as (ys' & Hpy & HP).
+        { symmetry. eapply F2_len. apply (Helems (length (concat parts) + ty_depth t)%nat). lia. }
+        destruct (perm_positional' parts parts' Hperm xs' Hlen') as (ys' & Hpy & HP).
         exists ys'. split; [|right; split; [exact Hso1|split; [exact Hb1|exact Hpy]]].
         intros f Hf. apply HP. apply Helems. lia. }
     destruct Hord as (xs'' & Helems' & Hrel).
@@ -896,24 +873,43 @@ Example roundtrip_indefinite_nonvacuous :
 Proof. vm_compute. repeat split; try reflexivity; discriminate. Qed.
 
 (* the CER encoder: BOOLEAN TRUE as FF, a 1001-octet OCTET STRING in segments of 1000 under an
-   indefinite EXPLICIT tag, a 7993-bit BIT STRING in segments of 999 content octets (plus the
-   initial octet), the last with 7 unused bits; read by the BER decoder *)
+   indefinite EXPLICIT tag, indefinite containers; read by the BER decoder *)
 Definition modes_ex_cer_ty : ty :=
   TSeq [(Req, TBool); (Req, TExp (mkTag Ctx false 0) TOcts); (Req, TSeqOf TBits); (Req, TInt)].
 Definition modes_ex_cer_val : val :=
-  VRec [Some (VBool true); Some (VOcts (repeat 7 (N.to_nat 1001))); Some (VList [VBits (repeat true (N.to_nat 7993))]); Some (VInt 5)].
+  VRec [Some (VBool true); Some (VOcts (repeat 7 (N.to_nat 1001))); Some (VList [VBits [true; false; true]]); Some (VInt 5)].
 
 Example roundtrip_cer_encoder_nonvacuous :
   stage2_ty modes_ex_cer_ty = true /\ no_f01 modes_ex_cer_ty = true /\ no_setof modes_ex_cer_ty = true
   /\ modes_val CER CER modes_ex_cer_ty modes_ex_cer_val = true
   /\ modes_val CER BER modes_ex_cer_ty modes_ex_cer_val = true
-  /\ exists b, encode CER true 0 modes_ex_cer_ty modes_ex_cer_val = Ok b /\ length b = 2041%nat
+  /\ exists b, encode CER true 0 modes_ex_cer_ty modes_ex_cer_val = Ok b /\ length b = 1033%nat
        /\ firstn 12 b = [48; 128; 1; 1; 255; 160; 128; 36; 128; 4; 130; 3]
+       /\ skipn 1013 b = [4; 1; 7; 0; 0; 0; 0; 48; 128; 3; 2; 5; 160; 0; 0; 2; 1; 5; 0; 0]
        /\ decode BER (Some modes_ex_cer_ty) (b ++ [1; 2]) = Ok (DV modes_ex_cer_ty modes_ex_cer_val, [1; 2])
        /\ N.of_nat (length b) <= index_max.
 Proof.
-  vm_compute. repeat split; try reflexivity. eexists. repeat split; try reflexivity. discriminate.
+  do 5 (split; [vm_compute; reflexivity|]).
+  exists (match encode CER true 0 modes_ex_cer_ty modes_ex_cer_val with Ok b => b | Err _ => [] end).
+  vm_compute. repeat split; try reflexivity; discriminate.
 Qed.
+
+(* BIT STRING under CER: 7993 bits do not fit 999 content octets after the initial octet, so there are
+   two segments - 03 82 03 E8 00 (999 octets) and 03 02 07 80, the last with 7 unused bits *)
+Example roundtrip_cer_bits_nonvacuous :
+  let T := TSeqOf TBits in
+  let v := VList [VBits (repeat true (N.to_nat 7993))] in
+  match encode CER true 0 T v with
+  | Ok b => (stage2_ty T && no_f01 T && no_setof T && modes_val CER BER T v && N.leb (N.of_nat (length b)) index_max
+             && bytes_eqb (firstn 9 b) [48; 128; 35; 128; 3; 130; 3; 232; 0]
+             && bytes_eqb (skipn 1008 b) [3; 2; 7; 128; 0; 0; 0; 0]
+             && match decode BER (Some T) (b ++ [1; 2]) with
+                | Ok (DV _ v', tl) => aval_eqb (abs T v') (abs T v) && bytes_eqb tl [1; 2]
+                | _ => false
+                end)%bool
+  | Err _ => false
+  end = true.
+Proof. vm_compute. reflexivity. Qed.
 
 (* SET OF under the CER encoder: the elements come back sorted by their encodings, at both levels;
    equal as multisets, not as lists *)
